@@ -1248,7 +1248,11 @@ class Tensor(object):
                     if batch_dim_processed:
                         core = torch.cat(
                             [
-                                torch.eye(self.ranks_tt[counter - 1].item())[None, ...]
+                                torch.eye(
+                                    self.ranks_tt[counter - 1].item(),
+                                    dtype=self.cores[0].dtype,
+                                    device=device,
+                                )[None, ...]
                                 for _ in range(batch_size)
                             ]
                         )
@@ -1260,7 +1264,11 @@ class Tensor(object):
                 else:
                     insert_core(
                         factors,
-                        torch.eye(self.ranks_tt[counter].item())[:, None, :],
+                        torch.eye(
+                            self.ranks_tt[counter].item(),
+                            dtype=self.cores[0].dtype,
+                            device=device,
+                        )[:, None, :],
                         key=slice(None),
                         U=None,
                     )
